@@ -247,4 +247,5 @@ var Controls = []Control{
 	{"C09", "hint printed only above another layer", "hintdetail/with_hint.go", `\tif p\.Detail\(\) \{\n\t\tp\.Print\(w\.hint\)`, "\tif p.Detail() && errbase.UnwrapOnce(w.cause) != nil {\n\t\tp.Print(w.hint)", "R-DETAIL-PRINT"},
 	{"C11", "pkg/errors stack layer sends at most 32 frames", "errbase/adapters.go", `\tsafeDetails := \[\]string\{fmt\.Sprintf\("%\+v", iErr\.StackTrace\(\)\)\}\n\treturn "" /\* withStack`, "\tst := iErr.StackTrace()\n\tif len(st) > 32 {\n\t\tst = st[:32]\n\t}\n\tsafeDetails := []string{fmt.Sprintf(\"%+v\", st)}\n\treturn \"\" /* withStack", "R-STACK-WHOLE"},
 	{"C11", "OS predicate compares the sentinel by identity", "oserror/oserror.go", `if errors\.Is\(err, ErrExist\) \|\| os\.IsExist`, "if errors.UnwrapAll(err) == ErrExist || os.IsExist", "R-OS-PREDICATE"},
+	{"C09", "multi-cause Formatter keeps its branches' texts", "errbase/format_error.go", `\t\tif len\(causes\) > 0 \{\n\t\t\ts\.elideShortChildren\(numChildren\)\n\t\t\}\n\n\tdefault:`, "\n\tdefault:", "R-ELIDE"},
 }
